@@ -1221,6 +1221,16 @@ func (c *Compiler) adjustJumpTargets(headerOffset uint32) {
 				binary.LittleEndian.PutUint32(c.code[i:i+4], newTarget)
 			}
 			i += 4
+		} else if opcode == byte(vm.OpAsync) {
+			// The body of an async block follows its length operand. It runs on a VM of its own,
+			// from offset 0, so the jumps inside it are relative to the body: they must not be
+			// shifted by the header offset (an `if` inside an async block jumped into the void
+			// and the block yielded null). Skip the operand and the whole body.
+			bodyLen := 0
+			if i+4 <= len(c.code) {
+				bodyLen = int(binary.LittleEndian.Uint32(c.code[i : i+4]))
+			}
+			i += 4 + bodyLen
 		} else if hasOperand(opcode) {
 			// Skip operand for other instructions with operands
 			i += 4
